@@ -47,6 +47,10 @@ ORACLE_RULES = {
                                        CORE(1), CORE(0)],
     "same-formula-other-annotations-z3": [A("ULT(x, 3)"), A("ZeroExt(1, y) == x + 1"), {"s": 0, "op": "branch"}, A("Ann(ULT(x, 3), 2)"),
                                           A("SLT(y, 0)"), A("SLT(y, 0)", 1), SAT(1), SAT(0), CORE(1), CORE(0), CORE(1)],
+    # a what-if core whose extra constraint CONNECTS two children of a composite, neither of which is unsatisfiable with it alone
+    # (found at the thorough tier once branches and spanning extras were generated)
+    "whatif-core-connects-two-children": [A("y == 6"), A("SLE(x, 2)"), CORE(0, ["ZeroExt(1, y) == x + 1"]), CORE(), {"s": 0, "op": "branch"},
+                                          A("ULT(z, 2)", 1), CORE(1, ["ZeroExt(1, y) == x + 1"]), CORE(1, ["z == y"]), CORE(1)],
     # a concretely false constraint is held by no child of a composite: it is the core
     "concrete-false": [A("ULT(x, 3)"), A("false"), CORE(), SAT(), CORE(), {"s": 0, "op": "branch"}, A("b", 1), CORE(1)],
     "concrete-false-first": [A("x != x"), CORE(), A("y == 6"), CORE(), CORE(0, ["b"])],
